@@ -360,6 +360,78 @@ def run_walk_op(op):
         return ("raise", type(e).__name__, str(e)[:200])
 
 
+PIPE_FILTERS = ["sanitizer", "sanitizer_custom", "whitespace", "optionaltags", "alphabeticalattributes", "inject_meta_charset", "lint"]
+PIPE_SINKS = ["tokens", "tokens", "sax", "pprint", "serialize"]
+
+
+class _SaxRecorder(object):
+    """A minimal SAX ContentHandler that records the events it receives."""
+
+    def __init__(self):
+        self.events = []
+
+    def __getattr__(self, name):
+        def rec(*args):
+            def norm(a):
+                if hasattr(a, "items") and not isinstance(a, dict):
+                    return tuple(sorted((k, v) for k, v in a.items()))
+                if isinstance(a, dict):
+                    return tuple(sorted(a.items()))
+                return a
+            self.events.append((name,) + tuple(norm(a) for a in args))
+        return rec
+
+
+def run_pipeline_op(op):
+    """parse -> tree walker -> a chain of filters -> a sink (token list, SAX
+    events, pprint text or the serializer), all with objects created for this
+    call: the result can only differ from a fresh interpreter's through
+    process-wide state."""
+    try:
+        p = new_parser({"builder": op["builder"], "ns": True, "strict": False})
+        if op.get("container"):
+            tree = p.parseFragment(_doc_text(op), container=op["container"])
+        else:
+            tree = p.parse(_doc_text(op))
+    except Exception as e:
+        return ("setup_raise", type(e).__name__, str(e)[:200])
+    try:
+        from html5lib.filters import (sanitizer as f_san, whitespace as f_ws, optionaltags as f_opt, alphabeticalattributes as f_alpha,
+                                      inject_meta_charset as f_meta, lint as f_lint)
+        from html5lib import treeadapters
+        stream = treewalkers.getTreeWalker(walker_name(op["builder"]))(tree)
+        for name in op.get("filters") or []:
+            if name == "sanitizer":
+                stream = f_san.Filter(stream)
+            elif name == "sanitizer_custom":
+                stream = f_san.Filter(stream, allowed_elements=frozenset([("http://www.w3.org/1999/xhtml", "p"),
+                                                                          ("http://www.w3.org/1999/xhtml", "b")]),
+                                      allowed_attributes=frozenset([(None, "title")]), allowed_protocols=frozenset(["https"]))
+            elif name == "whitespace":
+                stream = f_ws.Filter(stream)
+            elif name == "optionaltags":
+                stream = f_opt.Filter(stream)
+            elif name == "alphabeticalattributes":
+                stream = f_alpha.Filter(stream)
+            elif name == "inject_meta_charset":
+                stream = f_meta.Filter(stream, "utf-8")
+            elif name == "lint":
+                stream = f_lint.Filter(stream)
+        sink = op.get("sink", "tokens")
+        if sink == "sax":
+            from html5lib.treeadapters import sax as sax_adapter
+            h = _SaxRecorder()
+            sax_adapter.to_sax(stream, h)
+            return ("ok", tuple(h.events))
+        if sink == "pprint":
+            return ("ok", treewalkers.pprint(stream))
+        if sink == "serialize":
+            return ("ok", serializer.HTMLSerializer(omit_optional_tags=False).render(stream))
+        return ("ok", canon_tokens(list(stream)))
+    except Exception as e:
+        return ("raise", type(e).__name__, str(e)[:200])
+
+
 def public_outcome(out):
     """What is compared between reused and fresh objects."""
     if out[0] == "ok" and len(out) == 5:
@@ -378,6 +450,8 @@ def exec_op(obj, cfg, op, log_holder=None):
         return run_serialize_op(obj, op)
     if kind == "walk":
         return run_walk_op(op)
+    if kind == "pipeline":
+        return run_pipeline_op(op)
     if kind == "cold_restart":
         cold_restart()
         return ("ok",)
@@ -574,6 +648,14 @@ def gen_history(rng, stream):
         if r < 0.08:
             ops.append({"op": "walk", "doc": pick_doc(rng, "soup"), "builder": rng.choice(["etree", "dom"])})
             continue
+        if r < 0.16:
+            doc = list(rng.choice(SER_DOCS)) if rng.random() < 0.5 else pick_doc(rng, "soup")
+            op = {"op": "pipeline", "doc": doc, "builder": rng.choice(["etree", "dom"]),
+                  "filters": rng.sample(PIPE_FILTERS, rng.randint(0, 3)), "sink": rng.choice(PIPE_SINKS)}
+            if rng.random() < 0.2:
+                op["container"] = rng.choice(["div", "td", "select", "svg"])
+            ops.append(op)
+            continue
         if pending_observer is not None and rng.random() < 0.6:
             oi = pending_observer
         else:
@@ -669,7 +751,7 @@ def block_start():
 
 def fresh_outcome(cfg, op):
     """Outcome of the op on brand-new objects (same process)."""
-    if op["op"] in ("walk", "cold_restart"):
+    if op["op"] in ("walk", "cold_restart", "pipeline"):
         return None
     key = json.dumps([cfg, op], sort_keys=True)
     hit = _fresh_memo.get(key)
@@ -719,6 +801,18 @@ def execute(case):
             f["cold_restart"] = f.get("cold_restart", 0) + 1
             trace.append(("cold_restart",))
             after_cold = True
+            continue
+        if kind == "pipeline":
+            out = run_pipeline_op(op)
+            trace.append(("pipeline", out[0], env.digest(out)[:12]))
+            from .zygote import ZYGOTE
+            pr = ZYGOTE.request("pipe|" + json.dumps(op, sort_keys=True), {"kind": "pipeline", "op": op})
+            P["pristine_reference_used"] += 1
+            P["pipeline_ops"] += 1
+            if pr != out:
+                failure = ("pristine", "op %d (pipeline %s -> %s): this process gives %s, a pristine interpreter %s"
+                           % (i, op.get("filters"), op.get("sink"), brief(out, 200), brief(pr, 200)))
+                break
             continue
         if kind == "walk":
             out = run_walk_op(op)
@@ -948,6 +1042,13 @@ def _simpler_ops(op):
         yield dict(op, encoding=None)
     if op.get("take"):
         yield dict(op, take=op["take"] - 1)
+    if op.get("filters"):
+        for k in range(len(op["filters"])):
+            yield dict(op, filters=op["filters"][:k] + op["filters"][k + 1:])
+    if op.get("sink") not in (None, "tokens"):
+        yield dict(op, sink="tokens")
+    if op["op"] == "pipeline" and op.get("container"):
+        yield dict(op, container=None)
 
 
 def describe(case):
